@@ -609,7 +609,7 @@ func (x *Exec) zeroVal(st *State, t types.Type) Val {
 		return &PtrV{Nil: TTrue, Obj: 0, Elem: u.Elem()}
 	case *types.Slice:
 		if isByte(u.Elem()) {
-			return T{S: `""`, So: SString, Segs: []Seg{}}
+			return T{S: `""`, So: SString, Segs: []Seg{}, Nil: "true"}
 		}
 		return &SliceV{Back: -1, Off: IntLit(0), Len: IntLit(0), Elem: u.Elem()}
 	case *types.Array:
